@@ -91,8 +91,8 @@ QUICK = dict(
     unresolvable=dict(Ko=0, Kc=0, kmax=0, nmax=0),
 )
 QUICK_BOUNDS = ('sum of four focus groups — shapes: 4x4 star forms x <=1 fixed positional x <=1 keyword name (callee or foreign) x '
-                'callee <=1 named, bare outer; contexts: 16 statement contexts (incl. nested defs whose parameter shadows a star) x 6 routes x pristine/absent stars; taints: 37 '
-                'taint + 7 non-taint statements before/after the call; unresolvable: 3 kinds x 16 contexts')
+                'callee <=1 named, bare outer; contexts: 22 statement contexts (incl. 9 nested defs / lambdas whose own parameter of any kind shadows a star) x 6 routes x pristine/absent stars; taints: 37 '
+                'taint + 7 non-taint statements before/after the call; unresolvable: 3 kinds x 22 contexts')
 THOROUGH = dict(
     shapes=dict(Ko=1, Kc=2, kmax=2, nmax=2),
     contexts=dict(Ko=1, Kc=1, kmax=1, nmax=0),
@@ -110,6 +110,12 @@ def plan(tier):
                  cfg=dict(groups=['contexts'], Ko=1, Kc=1, kmax=0, nmax=0, route_list=['self', 'param-partial'],
                           ctx_list=['return', 'nested-def']),
                  bounds='outer with <=1 named parameter (positional-only included) x routes self / param-partial x return / nested def',
+                 min_nontrivial=100),
+            dict(name='deferred-call-arguments', fn='h_equal', depth=8, budget_s=180,
+                 cfg=dict(groups=['full'], Ko=0, Kc=1, kmax=1, nmax=0, form_list=['pristine'], route_list=['global'],
+                          ctx_list=['nested-def', 'lambda', 'listcomp', 'genexp', 'nested-shadow-va-posonly',
+                                    'nested-shadow-kw-kwonly']),
+                 bounds='5 argument expressions (constant, kwargs.pop, hand-off, len(args), walrus) as the fixed positional of a call deferred into a nested def / lambda / comprehension (6 contexts), pristine stars, callee <=1 named',
                  min_nontrivial=100),
         ]
     return [
